@@ -113,3 +113,45 @@ func H_C20_keys() {
 	verif.Assert(verif.Eq(vars, reg), "final-map")
 	verif.Reach("end")
 }
+
+// H_C20_prepared: the map is shared by reference for the lifetime of the
+// queries: statements prepared up front and executed in sequence (in either
+// order, also re-executed) see each other's stores, and the caller sees them
+// in the map after every Exec.
+func H_C20_prepared() {
+	order := verif.Choose("order", 3)
+	x := verif.F64("x")
+	verif.Assume(x == x)
+	vars := map[string]any{"seed": float64(7)}
+	doc := func() Map { return Map{"t": []any{Map{"x": x}}} }
+	writer, e1 := New(doc(), "SELECT SETVAR('total', x), SETVAR('seed', x + 1), GETVAR('seed') AS s FROM t", WithVars(vars))
+	reader, e2 := New(doc(), "SELECT GETVAR('total') AS total, GETVAR('seed') AS seed, GETVAR('never') AS never FROM t", WithVars(vars))
+	verif.Assert(e1 == nil && e2 == nil, "prepared")
+	if e1 != nil || e2 != nil {
+		return
+	}
+	switch order {
+	case 0:
+		// writer, then reader (both prepared before either ran)
+		_, err := writer.Exec()
+		verif.Assert(err == nil && verif.Eq(vars, map[string]any{"total": x, "seed": x + 1}), "caller-sees-stores")
+		got, err := reader.Exec()
+		verif.Assert(err == nil && verif.Eq(got, []any{Map{"total": x, "seed": x + 1, "never": nil}}), "later-query-sees-stores")
+	case 1:
+		// reader first (nothing stored yet), then writer, then the reader again
+		got, err := reader.Exec()
+		verif.Assert(err == nil && verif.Eq(got, []any{Map{"total": nil, "seed": float64(7), "never": nil}}), "reads-initial-map")
+		_, err = writer.Exec()
+		verif.Assert(err == nil, "writer-ok")
+		got, err = reader.Exec()
+		verif.Assert(err == nil && verif.Eq(got, []any{Map{"total": x, "seed": x + 1, "never": nil}}), "re-executed-query-sees-stores")
+	case 2:
+		// the caller changes the map between preparation and execution
+		vars["total"] = "outside"
+		got, err := reader.Exec()
+		verif.Assert(err == nil && verif.Eq(got, []any{Map{"total": "outside", "seed": float64(7), "never": nil}}), "reads-callers-update")
+		_, err = writer.Exec()
+		verif.Assert(err == nil && verif.Eq(vars, map[string]any{"total": x, "seed": x + 1}), "caller-sees-stores")
+	}
+	verif.Reach("end")
+}
